@@ -286,6 +286,7 @@ Section SafeBody.
       cbn [bind]; [|apply safe_err].
     destruct Hp as [Hp1 Hp2]. specialize (Hp2 Hb).
     destruct (toff + t_len tl0 >? zlen bs) eqn:Er; [apply safe_err|].
+    destruct (negb (ident_ok t p tl0)); [apply safe_err|].
     destruct (slice_from_spec bs toff) as [c [Hc [Hcl Hcb]]]; [lia|].
     destruct t; try rewrite Hc; cbn [bind]; try apply safe_ok; try apply safe_err.
     - (* TBool *)
@@ -337,7 +338,8 @@ Proof.
          destruct Hp as [Hp1 Hp2]; specialize (Hp2 Hb);
          destruct (toff + t_len tl0 >? zlen bs) eqn:Er; [apply safe_err|];
          match goal with |- safe (if ?c then _ else _) => destruct c end;
-         [ destruct (slice_from_spec bs toff) as [c [Hc [_ Hcb]]]; [lia|];
+         [ destruct (negb (wrapper_ok p tl0)); [apply safe_err|];
+           destruct (slice_from_spec bs toff) as [c [Hc [_ Hcb]]]; [lia|];
            rewrite Hc; cbn [bind]; apply (Body _ c), Hcb, Hb
          | apply (Body _ bs), Hb ]).
   (* TPtr *)
